@@ -114,6 +114,8 @@ InitObsFam(fam) ==
    lastsec |-> [p \in Parties |-> "none"],
    wire |-> {},                               \* <<text, resent, wire id>> of every data message emitted
    started |-> FALSE,
+   ksess |-> [p \in Parties |-> <<0, 0>>],
+   krev |-> [p \in Parties |-> FALSE],    \* session id pair when the party last went or stayed secure
    smpok |-> [p \in Parties |-> FALSE],      \* SMP success seen since the last deviant message
    used |-> [p \in Parties |-> {}],          \* receiving MAC keys that verified an accepted message
    disclosed |-> [p \in Parties |-> {}],     \* MAC keys disclosed so far
@@ -143,6 +145,8 @@ NextObs(e) ==
      !.disclosed[e.p] = @ \cup UNION {TupSet(e.out[i].discl) : i \in DataOuts(e)},
      !.smpok[e.p] = IF e.ev = "Recv" /\ e.atk # "" THEN FALSE ELSE IF HasEv(e, "smp:Success") THEN TRUE ELSE @,
      !.smpok[Other(e.p)] = IF e.ev = "Recv" /\ e.atk # "" THEN FALSE ELSE @,
+     !.krev[e.p] = IF HasEv(e, "sec:GoneSecure") \/ HasEv(e, "sec:StillSecure") THEN e.st.rev ELSE @,
+     !.ksess[e.p] = IF HasEv(e, "sec:GoneSecure") \/ HasEv(e, "sec:StillSecure") THEN Logged(e.st, "sess") ELSE @,
      !.started = @ \/ e.st.auth \notin {"nil", "none"} \/ e.st.ms = "enc"]
 
 OwnerOfId(id) == IF (id > 100 /\ id < 200) \/ (id >= 100000 /\ id < 200000) THEN "A"
@@ -268,6 +272,8 @@ PropViolations(e, o) ==
   \cup (IF e.ev = "Done" /\ o.fam = "randfail" /\
              ~((\E i \in DOMAIN o.delivered["B"] : o.delivered["B"][i][1] = 9001) /\ (\E i \in DOMAIN o.delivered["A"] : o.delivered["A"][i][1] = 9002))
         THEN {<<"C13", "after a failure of the randomness source the conversation is no longer usable">>} ELSE {})
+  \cup (IF e.ev # "Done" /\ e.st.ms = "enc" /\ (Logged(e.st, "sess") # o.ksess[p] \/ e.st.rev # o.krev[p])
+        THEN {<<"C01", "the session id reported while encrypted is that of an exchange that has not completed">>} ELSE {})
   \cup (IF e.ev = "Done" /\ o.fam = "ake" /\ e.qa = 0 /\ e.qb = 0 /\ o.started /\
              ~(/\ st["A"].ms = "enc" /\ st["B"].ms = "enc" /\ st["A"].sess = st["B"].sess
                /\ st["A"].peer = "B" /\ st["B"].peer = "A" /\ st["A"].rev # st["B"].rev)
